@@ -1,5 +1,4 @@
 SPECIFICATION Spec
-CONSTANT LIMIT = 20000
 INVARIANT Counters
 POSTCONDITION Accepted
 CHECK_DEADLOCK FALSE
